@@ -11,7 +11,7 @@ import os
 from typing import List
 
 from semantiva.context_processors import ContextType
-from semantiva.data_io import DataSink, DataSource, PayloadSource
+from semantiva.data_io import DataSink, DataSource, PayloadSink, PayloadSource
 from semantiva.data_processors import DataOperation
 from semantiva.data_types import BaseDataType
 from semantiva.examples.test_utils import (
@@ -33,6 +33,18 @@ class VCtxWriteOp(FloatOperation):
     @classmethod
     def context_keys(cls) -> List[str]:
         return ["w_key"]
+
+
+class VLongTailOp(FloatOperation):
+    """Identity on the data; (re)writes the declared key long_key with a long list whose only varying element is the last."""
+
+    def _process_logic(self, data):
+        self._notify_context_update("long_key", [1.0] * 80 + [data.data])
+        return FloatDataType(data.data)
+
+    @classmethod
+    def context_keys(cls) -> List[str]:
+        return ["long_key"]
 
 
 class VUndeclaredWriteOp(FloatOperation):
@@ -64,6 +76,22 @@ EXC_OBJECTS = {
     "keyboard_empty": KeyboardInterrupt(),
     "assert_empty": AssertionError(),
 }
+
+
+INIT_FAULT = {"kind": None}  # armed by observe.run_real for the duration of one process() call
+
+
+class VInitFaultOp(FloatOperation):
+    """Identity operation whose constructor raises the pre-built exception named by INIT_FAULT (construction-time abort)."""
+
+    def __init__(self, *args, **kwargs):
+        kind = INIT_FAULT["kind"]
+        if kind:
+            raise EXC_OBJECTS[kind]
+        super().__init__(*args, **kwargs)
+
+    def _process_logic(self, data):
+        return data
 
 
 class VRaiseOp(FloatOperation):
@@ -207,6 +235,52 @@ class VNoDocSink(_DocSink):
 
 class VNoDocPayloadSource(VPayloadSourceWithKeys):
     pass
+
+
+class VDualStore(DataSource, DataSink[FloatDataCollection]):
+    """A store that can be read (DataSource) and written (DataSink): one class, two IO roles."""
+
+    @classmethod
+    def _get_data(cls, slot: str = "default"):
+        return FloatDataType(7.0)
+
+    @classmethod
+    def output_data_type(cls):
+        return FloatDataType
+
+    @classmethod
+    def _send_data(cls, data, slot: str = "default"):
+        return None
+
+    @classmethod
+    def input_data_type(cls):
+        return FloatDataCollection
+
+
+class VDualPayloadStore(PayloadSource, PayloadSink[FloatDataCollection]):
+    """A payload store that can be read (PayloadSource) and written (PayloadSink)."""
+
+    @classmethod
+    def _get_payload(cls):
+        from semantiva.pipeline import Payload
+
+        return Payload(FloatDataType(7.0), ContextType({"store_slot": "default"}))
+
+    @classmethod
+    def output_data_type(cls):
+        return FloatDataType
+
+    @classmethod
+    def _injected_context_keys(cls):
+        return ["store_slot"]
+
+    @classmethod
+    def _send_payload(cls, payload):
+        return None
+
+    @classmethod
+    def input_data_type(cls):
+        return FloatDataCollection
 
 
 MODULE = __name__
